@@ -71,7 +71,7 @@ def main():
                 if m.get("benign"):
                     good = r.returncode == 0
                 else:
-                    alts = m["expect"].split("|")
+                    alts = m.get("expect", m["prop"].split(",")[0] + ".").split("|")
                     if "ANALYSIS" in alts:
                         good = r.returncode == 2
                     else:
